@@ -103,9 +103,12 @@ def family_built(ctx, names):
     import substrate
     from engine import runner
     from gen import schemas
+    import pathlib
+    canon_src = (pathlib.Path(__file__).resolve().parent.parent /
+                 'oracle' / 'canon.py').read_text()
     key = hashlib.sha256(
         (substrate.tree_key() + repr([(n, schemas.sdl(n)) for n in names])
-         ).encode()).hexdigest()[:24]
+         + canon_src).encode()).hexdigest()[:24]
     d = substrate.CACHE / 'fam'
     d.mkdir(parents=True, exist_ok=True)
     p = d / f'{key}.pickle'
